@@ -2,6 +2,7 @@ pub mod codec;
 pub mod flood;
 pub mod raw;
 pub mod rawpeer;
+pub mod shutdown;
 pub mod sim;
 pub mod threaded;
 pub mod window;
